@@ -80,7 +80,8 @@ def showGrammar (gid : String) (g : NodeGrammar) : String :=
 
 def config (bits : String) : Config :=
   let cs := bits.toList
-  { box_only_if_needed := cs[0]? == some '1', pest_optimizer := cs[1]? != some '0' }
+  { box_only_if_needed := cs[0]? == some '1', pest_optimizer := cs[1]? != some '0', emit_rule_reference := cs[2]? == some '1',
+    do_not_emit_span := cs[3]? == some '1', no_warnings := cs[4]? == some '1' }
 
 /-! `genWith` evaluates `notBoxed g` (the reachability loop, cubic in the number of rules) once PER RULE when
 `box_only_if_needed` is set — seconds for the 375-rule corpus grammars.  The driver computes the set once;
